@@ -1,6 +1,6 @@
 """C12 — changing how a stream represents phases never changes what it contains.
 Correspondence harness (real tmo.Stream / tmo.MultiStream vs coq/C12/Model.v), generators, direct oracle."""
-import itertools
+import itertools, re
 import numpy as np
 from fractions import Fraction as F
 from vf import q, qlist, clist, cbool, cnat, copt, frac, fr_json
@@ -419,13 +419,16 @@ def oracle(case):
             required = views[r[1]].phase == r[2]
         elif name == 'wpar':
             required = (not was_multi) or r[1] in s.phases or (r[1] != 'g' and swap(r[1]) in s.phases)
+        was = f"[was {'MultiStream' if was_multi else 'Stream'} ({','.join(p for p, _ in before)})]"
         try:
-            apply_op(s, r, views, saved)
+            ret = apply_op(s, r, views, saved)
         except Exception as ex:
             if required:
-                return f'{name}: raised {type(ex).__name__} although the operation is inside the property\'s quantifier (step {step}, {r})'
+                return f'{name}: raised {type(ex).__name__} although the operation is inside the property\'s quantifier (step {step}, {r}) {was}'
             return None
         while len(live) < len(views): live.append(True)
+        if name == 'view' and ret:
+            live[ret - 1] = True     # whatever s[phase] hands out IS the sub-stream of the multi-phase stream now
         after = flows_of(s); T1, P1 = s.T, s.P
         is_multi = type(s) is tmo.MultiStream
         if name in CONVERSIONS:
@@ -443,18 +446,19 @@ def oracle(case):
                     if not any(row): continue
                     d = p if p in new else (swap(p) if p != 'g' and swap(p) in new else None)
                     if d is None:
-                        return f'{name}: material of phase {p!r} has no place in the resulting phases {tuple(new)} (step {step}, {r})'
+                        return f'{name}: material of phase {p!r} has no place in the resulting phases {tuple(new)} (step {step}, {r}) {was}'
                     exp[d] = [a + b for a, b in zip(exp[d], row)]
                 for p, row in after:
                     if not close(row, exp[p]):
-                        return f'{name}: placement: phase {p!r} holds {row}, expected {exp[p]} (step {step}, {r})'
+                        return f'{name}: placement: phase {p!r} holds {row}, expected {exp[p]} (step {step}, {r}) {was}'
         elif name in ('wview', 'wpar'):
             pass
         elif name in ('T', 'P', 'vT', 'vP', 'vphase', 'vmass'):
             if after != before: return f'{name}: changed flows or phases'
         if name == 'restore':
             cls, phases, rows, T, P = records[r[1]]
-            if type(s) is not cls or tuple(s.phases) != phases or [x for _, x in after] != rows or (T1, P1) != (T, P):
+            # (a one-phase MultiStream comes back as a Stream of that phase: the class is not part of the clause then)
+            if (len(phases) != 1 and type(s) is not cls) or tuple(s.phases) != phases or [x for _, x in after] != rows or (T1, P1) != (T, P):
                 return (f'restore: set_data(get_data()) gives {type(s).__name__} {tuple(s.phases)} {[x for _, x in after]} T={T1} P={P1}, '
                         f'saved {cls.__name__} {phases} {rows} T={T} P={P}')
         # liveness of the sub-streams obtained so far
@@ -498,11 +502,17 @@ def oracle(case):
 def finding_key(case, msg):
     head = msg.split(':')[0]
     if head in ('vle', 'lle', 'sle'):
-        if 'raised' in msg:
-            return 'C12:vle-S-raises' if head == 'vle' else f'C12:{head}-raises'
-        if head == 'vle': return 'C12:vle-relabels-solid'
-        if head == 'lle': return 'C12:lle-relabels-nonliquid'
-        return 'C12:sle-relabels-gas' if "material of phase 'g' has no place" in msg else 'C12:sle-S-into-l'
+        # the five registered findings are exactly: a single-phase Stream whose label the accessor rewrites
+        m = re.search(r"\[was (\w+) \((.*?)\)\]", msg)
+        cls, phs = (m.group(1), m.group(2)) if m else ('?', '?')
+        kind = 'raised' if 'raised' in msg else 'no-place' if 'has no place' in msg else 'placement'
+        if cls == 'Stream':
+            if (head, phs, kind) == ('vle', 's', 'no-place'): return 'C12:vle-relabels-solid'
+            if (head, phs, kind) == ('vle', 'S', 'raised'): return 'C12:vle-S-raises'
+            if head == 'lle' and phs in ('g', 's', 'S') and kind == 'no-place': return 'C12:lle-relabels-nonliquid'
+            if (head, phs, kind) == ('sle', 'g', 'no-place'): return 'C12:sle-relabels-gas'
+            if (head, phs, kind) == ('sle', 'S', 'placement'): return 'C12:sle-S-into-l'
+        return f'C12:{head}-{kind}-{cls}-{phs}'
     if head.startswith('view '): head = 'view-TP'
     if head.startswith('views_live(mass'): head = 'views_live_mass'
     if 'raised' in msg: head += '-raised'
